@@ -785,6 +785,15 @@ rename("C04", TENSOR, "Tensor.eager_subs")
 V.append(dict(id="c04-s-unparse-package", prop="C04", kind="silent", transform=("unparse_package", "", "")))
 
 
+fire("c18-lower-contraction-zip-pairs-drop-odd", "C18", COMPILER,
+     "    bin_op = functools.partial(Binary, x.bin_op)\n    return functools.reduce(bin_op, terms)",
+     "    while len(terms) > 1:\n        terms = [Binary(x.bin_op, lhs, rhs) for lhs, rhs in zip(terms[0::2], terms[1::2])]\n    return terms[0]", "R18.3", "_lower_contraction")
+fire("c18-tracer-repeated-inputs-guard-vacuous", "C18", "funsor/ops/tracer.py",
+     "    kwarg_ids = {id(v) for v in kwargs.values()}", "    kwarg_ids = [id(v) for v in kwargs.values()]", "R18.5", "trace_function")
+silent("c18-s-tracer-repeated-inputs-guard-set-call", "C18", "funsor/ops/tracer.py",
+       "    kwarg_ids = {id(v) for v in kwargs.values()}", "    kwarg_ids = set(id(v) for v in kwargs.values())")
+
+
 # ===== derived variants: must stay at the END of this file (they enumerate every rename() variant above) =====
 # `if c: A else: B` -> `if not c: B else: A` in the anchor functions (behaviour-preserving)
 def invert(prop, file, qual):
